@@ -31,6 +31,7 @@ type Encoder struct {
 	clsDefList []ClassDef
 	nameMap    map[string]string
 	refMap     map[unsafe.Pointer]_refElem
+	refNum     int // number of lists, maps and objects written so far, i.e. the ordinal of the next one
 }
 
 //NewEncoder new
@@ -52,6 +53,7 @@ func (e *Encoder) Reset(w io.Writer) {
 	e.writer = w
 	e.clsDefList = make([]ClassDef, 0, 11)
 	e.refMap = make(map[unsafe.Pointer]_refElem, 11)
+	e.refNum = 0
 }
 
 //RegisterNameType register name type
